@@ -13,5 +13,6 @@ func init() {
 	alias("C12", "C12.8", "C17.5", "release() pools the zone bytes of a connection: they must not be shared with anything else")
 	alias("C10", "C10.8", "C09.8", "elastic ReadFrom lands in ring.Buffer.ReadFrom while the ring has room")
 	alias("C10", "C10.10", "C11.8", "Peek(n) across ring and list cuts the last segment through linkedlist.PeekWithBytes")
+	alias("C02", "C02.12", "C03.11", "asynchronous writes of one goroutine keep their issue order only if every one of them is submitted with HighPriority")
 	alias("C10", "C10.6", "C09.6", "the ring half moves data with split copies")
 }
